@@ -131,6 +131,7 @@ def run(ck):
             "tests `start < len` before serialising into memory[start..]; the real bound is enforced by the write failing on a short slice (an address is never 0 bytes long, so start == len fails either way)",
     }
     ntests = 0
+    tests_of = {}
     for p in sorted(c.paths()):
         if "{closure" in p or "::utils::TestHost" in p or re.search(r"utils::.*Host<.*>>::call$", p):
             continue
@@ -143,11 +144,40 @@ def run(ck):
             continue
         for k, (cb, g, exact, d) in enumerate(rules.len_tests_exact(f, mem[0], rules.slice_sites(f, mem[0]))):
             ntests += 1
+            tests_of.setdefault(p, (f, []))[1].append(cb)
             if not exact and p in EXACT_EXCEPTIONS:
                 ck.ob("BOUNDS", p, "length-test-exact#%d" % k, True, "documented exception: " + EXACT_EXCEPTIONS[p], f.loc(cb), nontrivial=False)
                 continue
             ck.ob("BOUNDS", p, "length-test-exact#%d" % k, exact, d if exact else "over-strict or shifted bounds test: " + d + " (an access ending exactly at the end of memory traps)", f.loc(cb))
     ck.floor("BOUNDS", "enforced offset-vs-memory-length tests guarding slices", ntests, 47)
+    # pointers and lengths outside memory trap: a host function that tests its memory arguments does so on every path that
+    # ends normally (a test made in one branch only lets the other branch return normally with a wild pointer)
+    UNTESTED_OK = {
+        "concordium_smart_contract_engine::v1::host::get_parameter_section":
+            "a parameter index that does not exist yields -1 without touching memory (host interface); the test sits in the branch that writes",
+    }
+    nfn = 0
+    for p, (f, cbs) in sorted(tests_of.items()):
+        acc, _ = f.accept_points()
+        und = [a for a in acc if not any(f.dominates(cb, a) for cb in cbs)]
+        if und:
+            # a path that insists on an empty range (`length == 0` enforced) has no memory argument to test
+            zero = []
+            for cx in rules.comparisons(f):
+                rel, _ = rules.cmp_rejects(f, cx)
+                ks = [op_const(cx[s_]) for s_ in ("a", "b")]
+                if rel == "Ne" and any(k is not None and const_int(k) == 0 for k in ks):
+                    br = rules.cmp_branches(f, cx)
+                    zero.append(br[0] if br else cx["bb"])
+            und = [a for a in und if not any(f.dominates(z, a) for z in zero)]
+        nfn += 1
+        if und and p in UNTESTED_OK:
+            ck.ob("BOUNDS", p, "memory-arguments-tested-on-every-normal-path", True, "documented exception: " + UNTESTED_OK[p], f.loc(und[0]), nontrivial=False)
+            continue
+        ck.ob("BOUNDS", p, "memory-arguments-tested-on-every-normal-path", not und,
+              "every normal return is dominated by one of the %d memory-range tests" % len(cbs) if not und else
+              "a normal return is reached without any of the function's memory-range tests: pointers/lengths outside memory do not trap on that path", f.loc(und[0]) if und else f.loc())
+    ck.floor("BOUNDS", "host functions with memory-range tests", nfn, 25)
 
     # a range whose end is clamped to the length of the data being read (end = min(offset + length, data.len())) is not
     # ordered by construction: offset may exceed the length, and data[offset..end] with offset > end panics
